@@ -22,7 +22,8 @@ ANCHORS = [
 SOFT_ANCHORS = ['api.py:Record.prefix_not_in_synonyms', 'api.py:Record.uri_prefix_not_in_synonyms']
 DECIDING = ["construct", "record-self-synonym", "loader-self-synonym"]
 RULE = (
-    "case = a clash-free record collection with 0-2 injected clashes of a chosen kind (canonical/canonical, "
+    "bounded world: every ordered pair of the 81 records over CURIE prefixes {a,b,c} and URI prefixes {u,v,w} with at most "
+    "one synonym per side is constructed (coverage.small_world_exhaustive). Random part: case = a clash-free record collection with 0-2 injected clashes of a chosen kind (canonical/canonical, "
     "canonical/synonym, synonym/canonical, synonym/synonym; CURIE side, URI side or both; sometimes a record repeats one "
     "of its own synonyms, which is not a clash), constructed in every order "
     "(all permutations up to 4 records, sampled above) through Converter(...) and, re-expressed in each format, through "
@@ -65,8 +66,49 @@ def inject(rng, recs, side, level):
     return f"{side}-{lv}"
 
 
+# ---- bounded-exhaustive small world ----------------------------------------------------------------------------------
+# every record over CURIE prefixes {a, b, c} and URI prefixes {u, v, w} with at most one synonym on each side (never its
+# own canonical value): 3 * 3 * 3 * 3 = 81 records; every ordered pair of them (6561 collections) is constructed
+def small_records():
+    out = []
+    for p in "abc":
+        for ps in [()] + [(x,) for x in "abc" if x != p]:
+            for u in "uvw":
+                for us in [()] + [(x,) for x in "uvw" if x != u]:
+                    out.append(spec.Rec(p, u, ps, us, None))
+    return out
+
+
+_SMALL = small_records()
+SMALL_CHUNK = 9  # first records per chunk; each is paired with all 81 second records
+
+
+def n_small_chunks():
+    return -(-len(_SMALL) // SMALL_CHUNK)
+
+
+def small_world_case(ctx, g):
+    api, S = ctx.api, probe.S
+    for r1 in _SMALL[g * SMALL_CHUNK:(g + 1) * SMALL_CHUNK]:
+        for r2 in _SMALL:
+            call(api.Converter, [gen.mk_record(api, r1), gen.mk_record(api, r2)])
+            S.counters["wl:small-world-pairs"] += 1
+    probe.note_key(f"small-world:chunk{g}", True)
+
+
+def EXHAUSTIVE(tier, counters):
+    n = counters.get("wl:small-world-pairs", 0)
+    total = len(_SMALL) ** 2
+    return {
+        "small_world_exhaustive": n == total,
+        "explanation": f"{n} of {total} ordered pairs of the 81 records over CURIE prefixes {{a,b,c}} / URI prefixes {{u,v,w}} with <= 1 synonym per side constructed (iff checked on each); random collections beyond that are sampling",
+    }
+
+
 def run_case(ctx, g, rng):
     api, S = ctx.api, probe.S
+    if g < n_small_chunks():
+        small_world_case(ctx, g)
     if g % 25 == 24:
         return large_case(ctx, g, rng)
     recs = gen.records(rng, ":", 1, 5, allow_delim=True, patterns=True)
